@@ -546,11 +546,12 @@ theorem allL_map_snd {cs : List (Key × Node)} (h : allL p q cs = true) : ∀ v,
   obtain ⟨x, hx, rfl⟩ := List.mem_map.1 hv
   exact (allL_iff cs).1 h x hx
 
-theorem newPlainList_all (hS : Stable p q) (hF : FreshOK p q) {vals : List Node}
-    (h : ∀ v, v ∈ vals → allN p q v = true) : allN p q (newPlainList vals) = true := by
+theorem newPlainList_all (hS : Stable p q) (hF : FreshOK p q) (f : Flags) {vals : List Node}
+    (h : ∀ v, v ∈ vals → allN p q v = true) : allN p q (newPlainList f vals) = true := by
   simp only [newPlainList]
+  apply propagate_all hS
   rw [allN_comp]
-  refine ⟨hF.flags, hF.kind, ?_⟩
+  refine ⟨hS.ro _ _ hF.flags, hF.kind, ?_⟩
   rw [allL_iff]
   intro kv hm
   have hm2 := c19_mem_renumFrom hm
@@ -696,7 +697,7 @@ theorem premergeF_all (hS : Stable p q) (hF : FreshOK p q) : ∀ (fuel : Nat), P
         split at h
         · simp only [Except.ok.injEq, Prod.mk.injEq] at h
           obtain ⟨rfl, rfl, rfl⟩ := h
-          exact ⟨newPlainList_all hS hF hvals, intoAll_none⟩
+          exact ⟨newPlainList_all hS hF _ hvals, intoAll_none⟩
         · rename_i root
           split at h
           · cases h
@@ -714,7 +715,7 @@ theorem premergeF_all (hS : Stable p q) (hF : FreshOK p q) : ∀ (fuel : Nat), P
         split at h
         · simp only [Except.ok.injEq, Prod.mk.injEq] at h
           obtain ⟨rfl, rfl, rfl⟩ := h
-          exact ⟨newPlainList_all hS hF hvals, intoAll_none⟩
+          exact ⟨newPlainList_all hS hF _ hvals, intoAll_none⟩
         · rename_i root
           split at h
           · rename_i tf tk tcs hg
@@ -729,10 +730,10 @@ theorem premergeF_all (hS : Stable p q) (hF : FreshOK p q) : ∀ (fuel : Nat), P
                 exact ⟨(allN_comp _ _ _).2 ⟨ht.1, ht.2.1, extendList_all hS tf tk _ tcs hvals ht.2.2⟩, intoAll_some hrm.2⟩
             · simp only [Except.ok.injEq, Prod.mk.injEq] at h
               obtain ⟨rfl, rfl, rfl⟩ := h
-              exact ⟨newPlainList_all hS hF hvals, hi⟩
+              exact ⟨newPlainList_all hS hF _ hvals, hi⟩
           · simp only [Except.ok.injEq, Prod.mk.injEq] at h
             obtain ⟨rfl, rfl, rfl⟩ := h
-            exact ⟨newPlainList_all hS hF hvals, hi⟩
+            exact ⟨newPlainList_all hS hF _ hvals, hi⟩
       | stream =>
         simp only [premergeF] at h
         split at h
